@@ -297,6 +297,51 @@ def run_histories(S, tier):
                 S.sample({"history_schema": si, "ops": ops, "depth": depth, "fresh": common.jsonable(ref)})
 
 
+def run_context_histories(S, tier):
+    """Contexts derived from ONE kept base context (unrolling on, off, in every order of at most three derivations): the
+    base and every derived context keep laying out what they were made for, whatever was derived before or after."""
+    import itertools
+    from fcp.parser import get_fcp_from_string
+    from fcp.error import Logger
+    from fcp.encoding import make_encoder, PackedEncoderContext
+
+    for si, decls in enumerate(HIST_SCHEMAS):
+        text = print_schema(decls)
+        fcp = get_fcp_from_string(text, Logger({})).unwrap()
+        impls = {i.name: i for i in fcp.get_matching_impls("can")}
+
+        def lay(ctx, name):
+            try:
+                return ("ok", observe(make_encoder("packed", fcp, ctx).generate(impls[name])))
+            except Exception as e:  # noqa
+                return ("exc", type(e).__name__)
+
+        ref = {(u, n): lay(PackedEncoderContext().with_unroll_arrays(u), n) for u in (False, True) for n in impls}
+        for n_der in (1, 2, 3):
+            for seq in itertools.product((False, True), repeat=n_der):
+                S.count("states")
+                S.count("executions")
+                S.count("histories")
+                S.add("nontrivial", ("ctx", si, seq))
+                base = PackedEncoderContext()
+                derived = [(u, base.with_unroll_arrays(u)) for u in seq]
+                bad = None
+                for u, ctx in derived:
+                    for n in sorted(impls):
+                        S.count("transitions")
+                        got = lay(ctx, n)
+                        if got != ref[(u, n)] and bad is None:
+                            bad = (u, n, got)
+                # the base itself was made without a request to unroll
+                for n in sorted(impls):
+                    got = lay(base, n)
+                    if got != ref[(False, n)] and bad is None:
+                        bad = ("base", n, got)
+                S.add("outcomes", ("ctx", bad is None))
+                if bad is not None:
+                    S.violation("C04.history", "C04.history/layout-depends-on-contexts-derived-from-the-same-base/%s" % ("base" if bad[0] == "base" else "derived"), {"text": text, "derivations": ["with_unroll_arrays(%s)" % u for u in seq], "binding": bad[1], "context": str(bad[0])}, expected=ref[(False if bad[0] == "base" else bad[0], bad[1])], actual=bad[2])
+
+
 def run(tier):
     common.bind_repo()
     r = Run("C04", tier)
@@ -309,11 +354,12 @@ def run(tier):
         r.stats.merge(s)
     r.stats.c["transitions"] += transitions + bounds["option_cases"]
     run_histories(r.stats, tier)
+    run_context_histories(r.stats, tier)
     r.bounds["history_depth"] = 3 if tier == "quick" else 4
     r.rule = (
         "states = fixed-size struct shapes (1..3 fields, thorough 4) x every permutation of field ids, each laid out with unroll_arrays in {False,True} "
         "by the real PackedEncoder and compared with the reference layout and the model-free tiling invariant; plus signal-block option cases on every "
-        "subset (<=2) of field names; plus every generate() history up to the bound on one live encoder (fork-snapshot) compared with a fresh encoder. "
+        "subset (<=2) of field names; plus every generate() history up to the bound on one live encoder (fork-snapshot) compared with a fresh encoder; plus every sequence of <= 3 contexts derived from one kept base context. "
         "non-trivial = layout with >= 2 leaves, or any history."
     )
     r.assumptions = ["reference layout fcpmc/reflayout.py", "an unrolled array element belongs to the array field it was unrolled from"]
